@@ -23,7 +23,8 @@ def families(tier):
                 d["alpha"]["extras"] = sorted(set(d["alpha"]["extras"]) | {"help", "ver"})
                 D.trim_to_budget(d, bud)
     # an attached value may be empty (`--name=`): still one occurrence, wherever it stands
-    return fam + D.edge_family(SEED + 33, 9 if tier == "quick" else 27, maxlen=3)
+    px = D.prefix_family(SEED + 34, maxlen=3 if tier == "quick" else 4)
+    return fam + D.edge_family(SEED + 33, 9 if tier == "quick" else 27, maxlen=3) + (px[::2] if tier == "quick" else px)
 
 
 def gen(rnd, d):
